@@ -25,8 +25,12 @@ env = dict(os.environ, VERIF_HOME=HERE, LC_ALL="C", ASAN_OPTIONS="detect_leaks=0
 known = os.path.join(HERE, ".build", "known.tsv")
 import json
 with open(known, "w") as fh:
-    p = os.path.join(HERE, "known_findings.json")
-    for f in (json.load(open(p)).get("findings", []) if os.path.exists(p) else []):
+    import glob
+    fs = []
+    for p in [os.path.join(HERE, "known_findings.json")] + sorted(glob.glob(os.path.join(HERE, "known.d", "*.json"))):
+        if os.path.exists(p):
+            fs.extend(json.load(open(p)).get("findings", []))
+    for f in fs:
         if f.get("status") == "known":
             fh.write("%s\t%s\t%s\n" % (f["property"], f["signature"], f["what"].replace("\n", " ")))
 env["VERIF_KNOWN"] = known
